@@ -9,5 +9,6 @@ INVARIANT Symmetric
 INVARIANT RigidBodyNullSpace
 INVARIANT NodalExact
 INVARIANT ClampedNodeFixed
+INVARIANT RootIndexMeaning
 INVARIANT Emit
 CHECK_DEADLOCK FALSE
